@@ -282,6 +282,31 @@ func runC11(c *Ctx) {
 				rec.Violate("all-or-nothing", fmt.Sprintf("n=%d/bad=%d", n, bad), "Verify returned nil although the verifier at this position refused", in)
 			}
 		}
+		// slots that share one *Signature object (a list built by appending the same pointer): whatever Sign
+		// makes of it, a nil result means the message now verifies with the matching verifiers
+		if n >= 2 {
+			ka, e1 := gen.NewAlgKey(ks[0].Alg, r.Sub(901))
+			kb, e2 := gen.NewAlgKey(ks[0].Alg, r.Sub(902))
+			if e1 == nil && e2 == nil && ks[0].Alg != cose.AlgorithmPS256 && ks[0].Alg != cose.AlgorithmPS384 && ks[0].Alg != cose.AlgorithmPS512 {
+				shared := &cose.Signature{Headers: cose.Headers{Protected: cose.ProtectedHeader{int64(1): ka.Alg}, Unprotected: cose.UnprotectedHeader{}}}
+				sm := &cose.SignMessage{Headers: msg.Headers, Payload: payload, Signatures: []*cose.Signature{shared, shared}}
+				var e error
+				if guard(rec, "SignMessage.Sign(shared slot object)", in, func() { e = sm.Sign(gen.Entropy, ext, ka.Signer, kb.Signer) }) {
+					return
+				}
+				rec.Eval(1)
+				rec.Class(fmt.Sprintf("n=2/shared-signature-object/sign-ok=%v", e == nil))
+				if e == nil {
+					var ve error
+					if guard(rec, "SignMessage.Verify(shared slot object)", in, func() { ve = sm.Verify(ext, ka.Verifier, kb.Verifier) }) {
+						return
+					}
+					if ve != nil {
+						rec.Violate("sign-slot-empty", "shared-signature-object", "Sign returned nil for two slots sharing one Signature object, but the message does not verify with the two matching verifiers: "+ve.Error(), in)
+					}
+				}
+			}
+		}
 		// signers and verifiers of algorithms the library has no name for (private-use identifiers):
 		// every position is consulted, and a refusal at any position fails the whole verification
 		{
